@@ -21,7 +21,8 @@ func init() {
 			"(a) registry: every keyword of the conformance subset has exactly one entry in the generated constraint table whose handler is a real translation (not constraintTODO/constraintIgnore, not an empty body); " +
 			"(b) phase order: when the handler of one keyword reads a field of the per-schema state that the handler of another keyword writes, the writer's phase is strictly lower (so `minimum` sees `exclusiveMinimum`, `contains` sees `minContains`, `required` sees `properties`, ...); " +
 			"(c) operator tables by finite case analysis: each bound keyword adds its constraint for the right core type with the right CUE operator or builtin (minimum >= / > when exclusive, maximum <= / <, exclusiveMinimum >, exclusiveMaximum <, minLength MinRunes, ...), and the generator maps the same operators back to the same keywords; " +
-			"(d) the dispatcher calls a handler only in its own phase and for a schema version it is defined for, and reports (under StrictKeywords) what it skips. " +
+			"(d) the dispatcher calls a handler only in its own phase and for a schema version it is defined for, and reports (under StrictKeywords) what it skips; " +
+			"(e) the type-name table of the type keyword, the match count of allOf equals the emitted list, a boolean false sub-schema is not reported as unconstrained (known finding), handlers that inspect the collected object fields do not share a phase with handlers that add fields; (f) generator: collected object constraints are emitted whenever any exist, the keyword-interaction table is symmetric. " +
 			"It does not decide that the CUE built for a keyword accepts exactly the instances the keyword accepts, nor keyword interactions (not/oneOf/if over overlapping schemas), which is the core of the property and needs an oracle.",
 		trust: []string{"constraints_gen.go is the generated table actually compiled in", "CUE builtins (strings.MinRunes, list.MatchN, matchN, matchIf) trusted"},
 	})
@@ -519,6 +520,54 @@ func checkC13(c *Ctx) {
 		} else {
 			cf.checkTable("generator.object-constraints-emitted", rows,
 				"makeStructItem must return the collected properties/required/patternProperties whenever any of them is non-empty (the accept-all schema only for a struct without object constraints)")
+		}
+	}
+
+	// ---- a boolean `false` sub-schema is a constraint: the combinators drop
+	// members whose schemaInfo says "no constraints", so the info returned
+	// with a boolean schema must not claim that for `false`
+	{
+		f := c.fn(jsP, "(*state).schemaState")
+		g := c.graph(f)
+		sets := map[int]bool{}
+		for _, n := range g.Nodes {
+			if as, ok := n.N.(*ast.AssignStmt); ok {
+				for _, l := range as.Lhs {
+					if strings.HasSuffix(exprString(l), ".hasConstraints") {
+						sets[n.ID] = true
+					}
+				}
+			}
+		}
+		k := 0
+		for _, r := range g.returns() {
+			rs := g.Nodes[r].N.(*ast.ReturnStmt)
+			if len(rs.Results) != 2 {
+				continue
+			}
+			isBool := false
+			ast.Inspect(rs.Results[0], func(n ast.Node) bool {
+				if call, ok := n.(*ast.CallExpr); ok && calleeName(f.Info(), call) == jsP+".boolSchema" {
+					isBool = true
+				}
+				return true
+			})
+			if id, ok := rs.Results[0].(*ast.Ident); ok && !isBool {
+				if def := singleDef(f, f.Info().Uses[id]); def != nil {
+					if call, ok := ast.Unparen(def).(*ast.CallExpr); ok && calleeName(f.Info(), call) == jsP+".boolSchema" {
+						isBool = true
+					}
+				}
+			}
+			if !isBool {
+				continue
+			}
+			k++
+			c.check("combinators.false-subschema-not-dropped", fmt.Sprintf("%s#bool%d", f.Name, k), rs.Pos(), g.mustPassNode(r, sets),
+				"schemaState returns a boolean schema together with a schemaInfo whose hasConstraints was never set: allOf/anyOf/oneOf drop members without constraints, so `false` (which rejects everything) is dropped like `true`")
+		}
+		if k == 0 {
+			c.check("combinators.false-subschema-not-dropped", f.Name, f.Decl.Pos(), false, "anchor: no return of boolSchema(...) found in schemaState")
 		}
 	}
 
